@@ -108,4 +108,23 @@ LEVEL.update({
                 note=SIM_NOTE),
 })
 
+PY_NOTE = ("Trusted: Lean kernel; translate/pylayer.py (tokenizer-based extraction of match arms, tuple expressions, array builders, docstring "
+           "tables, #[pymethods] bodies, Python column lists via ast); pydrive (CPython driver) and the Rust harness; PyO3, numpy, CPython exercised "
+           "not modelled; a stand-in for three pandas calls.")
+
+ENGINES.append({"name": "py", "path": "checklib/py.py + pydrive/ + translate/pylayer.py", "serves_properties": ["C18", "C19"],
+                "kind_free_text": "Lean 4 theorems over binding/encoding/layout tables translated from the binding sources on every run; the real "
+                                  "compiled extension driven under CPython against the Rust core on the same call sequences"})
+
+LEVEL.update({
+    "C18": dict(engine="py", design_ref="DESIGN.md 6/C18",
+                technique="Lean 4 theorems on tables translated from rust/src each run (status/side encodings, record tuple layouts, every #[pymethods] binding equals the transparent one) + lifting lemmas + the real extension under CPython compared call by call with the Rust core",
+                text="status_encoding_documented, side_bool_roundtrip, tuple_layouts_documented, bindings_transparent (exact equality of every OrderBook/StepEnv binding with the transparent table), py_run_eq_core_run, py_error_unchanged. Per run: the compiled module is driven through OrderBook and StepEnv call sequences (off-grid prices -> ValueError, injected out-of-range integers -> OverflowError, both leaving the object unchanged; seed determinism; JSON snapshots cross-loaded Python<->Rust) and every value is compared with the Rust core's.",
+                note=PY_NOTE),
+    "C19": dict(engine="py", design_ref="DESIGN.md 6/C19",
+                technique="Lean 4 theorems: implemented layout = documented layout as field lists for all four array builders (translated each run), render_congr (equal field lists <=> equal arrays on every state), dictionary keys, frame columns + element-wise dynamic check through the compiled module",
+                text="stepEnv_l1_layout, stepEnv_l2_layout, stepEnvNumpy_l1_layout, stepEnvNumpy_l2_layout (incl. base_agent.py's documentation), array_lengths (9 and 45), render_congr, market_data_keys_bound, frame_columns_named. Per run: every element of the four arrays, every dictionary series and every data-frame column is compared with the documented quantity taken from the Rust core on asymmetric states.",
+                note=PY_NOTE),
+})
+
 NOT_YET = {}
